@@ -170,15 +170,18 @@ CHECKS = {
                   "(no translator for this part); OS/asyncio socket behaviour observed, not proved.",
              tech="Lean 4 proof (invariant by induction over action lists) + differential correspondence on real loopback sockets + Spec judge",
              ref="§7 C17"),
- "C18": dict(text="PARTIAL. Lean theorems about the TCP client's connection state machine for EVERY action sequence that does not connect "
-                  "while connected: connected_exactly (the `connected` flag is true exactly from a successful connect to the next "
-                  "disconnect/context exit), sockets_exactly (open sockets = 1 iff connected, else 0: nothing leaks, including after an "
-                  "operation that raises or a body exception inside `async with`), disconnect_closes, context_closes (normal and exceptional "
-                  "exit), disconnect_first/twice harmless, refused_connect leaves the client unconnected with no socket, reconnect works. "
+ "C18": dict(text="PARTIAL. Lean theorems about the TCP client's connection state machine for EVERY action sequence: connected_exactly "
+                  "(the `connected` flag is true exactly from a successful connect to the next disconnect/context exit; no hypothesis), "
+                  "sockets_exactly (open sockets = 1 iff connected, else 0: nothing leaks, including after an operation that raises or a "
+                  "body exception inside `async with`; on any runtime for sequences that do not connect over an open connection) and "
+                  "sockets_exactly_all (the same for ALL sequences on a runtime that closes the transport of an unreferenced StreamWriter, "
+                  "which is what this sandbox's CPython does and the harness observes), disconnect_closes, context_closes (normal and "
+                  "exceptional exit), disconnect_first/twice harmless, refused_connect leaves the client as it was, reconnect works. "
                   "That closing the writer makes the device see end-of-stream is observed by the correspondence against a scripted device on "
-                  "REAL loopback TCP (device-side open-connection count after every action), both API types.",
+                  "REAL loopback TCP (device-side open-connection count after every action), both API types, with and without the "
+                  "restriction on connect.",
              note="Trusted: Lean kernel (propext, Classical.choice, Quot.sound); hand model of connect/disconnect/__aenter__/__aexit__ tied "
-                  "by correspondence only; OS/asyncio stream behaviour observed, not proved. Connect-while-connected is outside the property.",
+                  "by correspondence only; OS/asyncio stream behaviour (incl. StreamWriter.__del__) observed, not proved.",
              tech="Lean 4 proof (invariant by induction over action lists) + differential correspondence on real loopback TCP + Spec judge",
              ref="§7 C18"),
 }
